@@ -85,6 +85,8 @@ def make_env():
 
     ns["a"] = NS()
     ns["a"].b = fn
+    ns["UNHASH"] = [1, 2]  # a value that cannot be hashed (selectors are interned by value)
+    ns["NUM1"] = 1
     return ns
 
 
@@ -209,6 +211,11 @@ BAD_TEMPLATES = [
     ("a.nope > {v}", {}, "unresolvable function (dotted)"),
     ("nope.b > {v}", {}, "unresolvable function (dotted)"),
     ("/c18env/nofn > {v}", {}, "unresolvable reference"),
+    ("/./f > {v}", {}, "unresolvable reference (module '.')"),
+    ("/.. > {v}", {}, "unresolvable reference (module '..')"),
+    ("/../f > {v}", {}, "unresolvable reference (module '..')"),
+    ("{fn}(x~NUM1) > {v}", {}, "condition that is not a function"),
+    ("{fn}({ctx}, x~UNHASH) > {v}", {}, "condition that is not a function"),
     ("{fn}(!!{v})", {}, "second focus without first"),
     ("{fn}({ctx}, !!{v})", {}, "second focus without first"),
     ("{fn}({v})", {"overridable": True}, "no focus where overriding requires one"),
@@ -281,6 +288,21 @@ def part_s(spec, res, steps):
                     text = tpl.format(fn=fn, v=v, ctx=ctx)
                     for prelude in (False, True):
                         attempt(text, kw, what, prelude)
+    # a value that cannot be hashed is a legitimate right-hand side of `=`
+    env = make_env()
+    res.evaluations += 1
+    res.deciding += 1
+    got = []
+    try:
+        steps.begin("f(x=UNHASH) > y")
+        with probing("f(x=UNHASH) > y", env=env) as prb:
+            prb.subscribe(got.append)
+            env["f"]([1, 2])
+            env["f"](3)
+        if got != [{"x": [1, 2], "y": [1, 2]}]:
+            res.violation({"part": "S", "text": "f(x=UNHASH) > y"}, f"equality with an unhashable value: events {got}")
+    except BaseException as e:
+        res.violation({"part": "S", "text": "f(x=UNHASH) > y"}, f"equality with an unhashable value: {type(e).__name__}: {e}")
     res.sample({"part": "S", "templates": len(BAD_TEMPLATES), "instances": n})
 
 
